@@ -56,7 +56,9 @@ type c06Entry struct {
 	Flags              uint8
 }
 
-func (e c06Entry) String() string { return fmt.Sprintf("%d/%d/%d/%d", e.Offset, e.Size, e.Slot, e.Flags) }
+func (e c06Entry) String() string {
+	return fmt.Sprintf("%d/%d/%d/%d", e.Offset, e.Size, e.Slot, e.Flags)
+}
 
 func c06Base() string {
 	b := os.Getenv("VERIF_SHM")
